@@ -64,6 +64,9 @@ def gen_inputs(ctx):
                     continue
                 out.append(("ExtParse", {"s": T(s) if form == "str" else B(pay), "form": form, "asPrv": kind == "prv",
                                          "net": node["net"]}, ("parse", form, t, node["depth"] in (0, 255))))
+            if rng.random() < (0.15 if q else 0.4):
+                out.append(("ExtParse", {"s": B(pay), "form": "rawstream", "chunk": rng.choice([1, 3, 5, 7, 33, 40]), "asPrv": kind == "prv",
+                                         "net": node["net"]}, ("parse", "rawstream", t)))
             out.append(("Import", {"s": T(s)}, ("import", t)))
             if rng.random() < (0.3 if q else 0.6):
                 # the key inside a longer stream: after other data, and followed by a second key
